@@ -7,7 +7,7 @@
     universally quantified functions; their encoders only have to satisfy the round-trip hypotheses
     written in each statement (instantiated at the end of the file). *)
 From Coq Require Import List ZArith String Lia.
-From Thunder Require Import Lib.Json Args.Model Args.Spec Args.Proofs Args.ProofsReject Args.ProofsInst Args.ProofsSubst Args.ProofsTotal Gen.ArgParsers Args.Table.
+From Thunder Require Import Lib.Json Args.Model Args.Spec Args.Codec Args.Proofs Args.ProofsReject Args.ProofsInst Args.ProofsSubst Args.ProofsTotal Gen.ArgParsers Args.Table.
 Import ListNotations.
 Local Open Scope Z_scope.
 
@@ -207,13 +207,17 @@ Theorem base64_roundtrip : forall b, bytes_ok b -> b64_dec (b64_enc b) = Some b.
 Proof. exact ProofsInst.b64_roundtrip. Qed.
 Print Assumptions base64_roundtrip.
 
-(** Both transports with the concrete base64 codec (all byte strings), the catalogue TextUnmarshaler
-    (all strings) and RFC 3339 on a sample of printed times. *)
+Theorem rfc3339_roundtrip : forall x, time_ok x -> time_dec (time_enc x) = Some x.
+Proof. exact ProofsInst.time_roundtrip. Qed.
+Print Assumptions rfc3339_roundtrip.
+
+(** Both transports with the concrete codecs: base64 (all byte strings), the catalogue TextUnmarshaler
+    (all strings), RFC 3339 (all civil times of years 0-9999 with whole-minute zone offsets). *)
 Theorem concrete_transports :
   forall (t : ty) (v : gv),
-    wf_ty t -> sendable time_sample_ok (fun _ => True) t v ->
-    parse b64_dec time_dec text_dec t (json_of b64_enc time_enc_sample text_enc t v) = Ok v /\
-    exists j, vtj [] (lit_of b64_enc time_enc_sample text_enc "nul" t v) = Ok j /\
+    wf_ty t -> sendable time_ok (fun _ => True) t v ->
+    parse b64_dec time_dec text_dec t (json_of b64_enc time_enc text_enc t v) = Ok v /\
+    exists j, vtj [] (lit_of b64_enc time_enc text_enc "nul" t v) = Ok j /\
               parse b64_dec time_dec text_dec t j = Ok v.
 Proof. exact ProofsInst.concrete_transports. Qed.
 Print Assumptions concrete_transports.
@@ -236,7 +240,7 @@ Proof.
   cbn. repeat split; repeat constructor; cbn; intuition discriminate.
 Qed.
 
-Example ex_sendable : sendable time_sample_ok (fun _ => True) ex_ty ex_val.
+Example ex_sendable : sendable time_ok (fun _ => True) ex_ty ex_val.
 Proof.
   cbn [sendable ex_ty ex_val ex_color].
   eexists; split; [reflexivity|].
@@ -246,7 +250,7 @@ Proof.
   - eexists; split; [reflexivity|]. repeat constructor; eexists; reflexivity.
   - eexists; split; [reflexivity|]. repeat split.
     + exists 255. vm_compute. intuition discriminate.
-    + eexists; split; [reflexivity|]. right; left; reflexivity.
+    + eexists; split; [reflexivity|]. vm_compute. intuition (try discriminate; try reflexivity).
     + eexists; split; [reflexivity | exact I].
   - eexists; split; [reflexivity|]. repeat constructor; lia.
   - eexists; split; [reflexivity|]. constructor; [left; reflexivity|]. constructor; [|constructor].
@@ -255,7 +259,7 @@ Proof.
 Qed.
 
 Example ex_echo :
-  parse b64_dec time_dec text_dec ex_ty (json_of b64_enc time_enc_sample text_enc ex_ty ex_val) = Ok ex_val.
+  parse b64_dec time_dec text_dec ex_ty (json_of b64_enc time_enc text_enc ex_ty ex_val) = Ok ex_val.
 Proof. exact (proj1 (concrete_transports ex_ty ex_val ex_wf ex_sendable)). Qed.
 
 (** The same request with one wrong kind inside is refused before any resolver step. *)
